@@ -9,6 +9,10 @@ nested list it passed as matrix= and afterwards leaves it alone, overwrites it w
 or with arbitrary integers: the group must keep the labels it was built from, and no call may write into
 the caller's container or change G.coxeter_matrix) and "diagram+matrix" (redundant matrix= next to
 diagram=: the documented behaviour is that the matrix is ignored).
+Section request-order: the order in which the representations are requested from the ONE group object is
+enumerated (each kind first; reversed; a diagonalised representation with a non-standard Cartan matrix -
+Tits-Vinberg with free parameters, S C S - directly before hyperbolic_rep / the diagonalised geometric and
+canonical ones) and every representation is requested a second time at the end (same generators).
 Second family: hyperbolic triangle groups, fixed points of the three rotations vs the angles pi/p,
 pi/q, pi/r (mc/oracle/hyp.py).
 """
@@ -274,19 +278,25 @@ def case_group(case):
             pass
         return G.tits_vinberg_rep(dict(params))
 
+    # Cartan / parameter arrays are the CALLER's: each kind gets one array that is handed to the library on every
+    # request of that kind (first request, repeated request) and must still hold the same numbers afterwards
+    mine = {"cartan": C0.copy(), "cartan-nonsymmetric": C1.copy(), "cartan-renamed": C1.copy(),
+            "cartan-signed-diag": C2.copy(), "tits-vinberg/matrix": np.array(pm, copy=True)}
+    pristine = {k: np.array(a, copy=True) for k, a in mine.items()}
+
     # (kind, applicable, request, generator names of the result)
     table = [
         ("geometric", True, lambda: G.geometric_representation(), names),
         ("canonical", True, lambda: G.canonical_representation(), names),
         ("geometric-diag", diag_ok, lambda: G.geometric_representation(diagonalize=True), names),
         ("canonical-diag", diag_ok, lambda: G.canonical_representation(diagonalize=True), names),
-        ("cartan", True, lambda: G.cartan_representation(C0.copy()), names),
-        ("cartan-nonsymmetric", True, lambda: G.cartan_representation(C1.copy()), names),
-        ("cartan-renamed", True, lambda: G.cartan_representation(C1.copy(), rename_generators=True, generator_style=other),
+        ("cartan", True, lambda: G.cartan_representation(mine["cartan"]), names),
+        ("cartan-nonsymmetric", True, lambda: G.cartan_representation(mine["cartan-nonsymmetric"]), names),
+        ("cartan-renamed", True, lambda: G.cartan_representation(mine["cartan-renamed"], rename_generators=True, generator_style=other),
          gen_names(n, other)),
-        ("cartan-signed-diag", diag_ok, lambda: G.cartan_representation(C2.copy(), diagonalize=True), names),
+        ("cartan-signed-diag", diag_ok, lambda: G.cartan_representation(mine["cartan-signed-diag"], diagonalize=True), names),
         ("tits-vinberg/dict", has_inf, lambda: G.tits_vinberg_rep(dict(params)), names),
-        ("tits-vinberg/matrix", has_inf, lambda: G.tits_vinberg_rep(pm.copy()), names),
+        ("tits-vinberg/matrix", has_inf, lambda: G.tits_vinberg_rep(mine["tits-vinberg/matrix"]), names),
         ("tits-vinberg-diag", tvd_ok, lambda: G.tits_vinberg_rep(dict(params), diagonalize=True), names),
         ("tits-vinberg/after-scribble", has_inf and bool(case.get("scribble")), scribbled_tv, names),
         ("hyperbolic", hyp_ok, lambda: G.hyperbolic_rep(), names),
@@ -479,6 +489,10 @@ def case_group(case):
         if not same_matrix(box, final):
             V.add("ownership/caller-container-modified/" + cls, "the container passed as matrix= held %r, now %r"
                   % (final, np.asarray(box).tolist()))
+    for knd in sorted(mine):
+        if mine[knd].shape != pristine[knd].shape or not np.array_equal(mine[knd], pristine[knd]):
+            V.add("ownership/caller-cartan-modified/" + knd, "the array handed to the library for the %s request held %r, now %r"
+                  % (knd, pristine[knd].tolist(), mine[knd].tolist()))
     worst = max([r for (r, k) in V.worst.values()] or [0.0])
     cox = np.eye(n)
     for gmat in ggens:
